@@ -5,7 +5,7 @@ from common import *
 import procgen as pg
 
 PROP_MODULES = ["HvsrVerif.Props.C04", "HvsrVerif.Props.C04Rot"]
-BRIDGE_MODULES = []
+BRIDGE_MODULES = ["HvsrVerif.Bridge.PyAzimuth", "HvsrVerif.Bridge.PyOrient"]
 ANGLES = [0.0, 90.0, 180.0, 270.0, 360.0, -90.0, 45.0, 400.0, -720.0, 1080.0, 30.0, 215.5]
 
 
